@@ -25,7 +25,7 @@ VARIANTS = {
     'development': dict(inc=[os.path.join(REPO, 'development')], header='<ffsm2/machine_dev.hpp>'),
 }
 PROPS = ['C%02d' % i for i in range(1, 21)]
-SPEC_MODULES = ['contracts.c20', 'contracts.c13']
+SPEC_MODULES = ['contracts.c20', 'contracts.c13', 'contracts.c10', 'contracts.c07', 'contracts.root', 'contracts.structure', 'contracts.plans', 'contracts.serial', 'contracts.c17']
 
 
 def load_units():
@@ -171,6 +171,7 @@ def main():
     ap.add_argument('--replay')
     ap.add_argument('--variants', default='include,development')
     ap.add_argument('--show-failed', action='store_true')
+    ap.add_argument('--timeout', type=int)
     a = ap.parse_args()
     if a.replay:
         import replay
@@ -178,7 +179,7 @@ def main():
     prop = a.prop
     t0 = time.time()
     seed = int(os.environ.get('VERIF_SEED', '0') or 0)
-    units = [u for u in load_units() if prop in u.get('props', []) and (a.tier == 'thorough' or u.get('tier', 'quick') == 'quick')]
+    units = [u for u in load_units() if prop in u.get('props', []) and (u.get('tier', 'both') in ('both', a.tier))]
     if a.unit:
         units = [u for u in units if u['id'] in a.unit]
     if not units:
@@ -186,6 +187,8 @@ def main():
         sys.exit(2)
     if a.tier == 'thorough':
         units = [dict(u, **u.get('thorough', {})) for u in units]
+    if a.timeout:
+        units = [dict(u, timeout=a.timeout) for u in units]
     work = tempfile.mkdtemp(prefix='ffsm2verif_', dir=os.environ.get('VERIF_TMP') or None)
     undecided, violations, known_hits = [], [], []
     try:
